@@ -137,7 +137,9 @@ def run(ctx, chk):
                     want = cmp(m, "Ge", c(64))
                     okg = okg and gset(p.guards) == {want}
                     Np = an.norm_of(p)
-                    okg = okg and Np(v) == ("bin", "BitXor", me, I(18446744073709551615, "usize"))
+                    # flipping every bit: x ^ MAX, MAX ^ x or !x
+                    full = (("bin", "BitXor", me, I(18446744073709551615, "usize")), ("bin", "BitXor", I(18446744073709551615, "usize"), me), ("un", "Not", me))
+                    okg = okg and Np(v) in full
             chk.ob("G22", "usize::complement", okg and seen_mask and seen_full and len(r) == 2,
                    "1 << m must be computed only when m < 64 (xor with all-ones otherwise); paths: %s" % [p.describe()[:160] for p in r], b["span"], kind="guard-mismatch")
             nrows += 1
